@@ -44,6 +44,9 @@ CHECKS.update({
     "C12": dict(technique="TLA+ spec Concurrency.tla (executor semaphore, checkpoint RW-lock, read transaction, lifecycle): TLC exhaustive; TLC interleavings + seeded orders executed by real goroutines parked at verif hooks (exact replay) on one Store; TLC judge CoreObs.tla (C12_* + C01/C02/C06); Go race detector for the data-race clause",
         design="7/C12", note=CORE_NOTE + " Interleaving granularity = verif hooks; blocked goroutines stay blocked (nothing simulated). The data-race clause is decided by the race detector, not TLA+ (DESIGN 10).",
         text="Concurrency.tla checks LocksFree, NoDeadlock and NoLeakAfterClose over all interleavings of the daemon operations at hook granularity; those interleavings and seeded ones over the full operation set (sync, upload, checkpoint, snapshot, compaction, retention, status, register/unregister, enable/disable, close, live writers) are replayed exactly with real goroutines; a watchdog decides 'every call returns'; the judge requires no read lock / handle after close, one instance per path, and C01/C02/snapshot=position afterwards; the same replays run under -race."),
+    "C17": dict(technique="TLA+ spec LockPage.tla (litestream's page loops with the lock page as a constant, all small inputs) + REAL > 1 GiB databases replicated, compacted, snapshotted and restored (cmd/bigdb); TLC judge LockObs.tla on the decoded files and page-by-page restore comparison",
+        design="7/C17", note="Quick tier: page size 65536, growth across the boundary in one sync; thorough: eight page sizes x {cross, step across, below}. tmpfs scratch. " + TB,
+        text="LockPage.tla checks that no file produced by the snapshot / incremental+growth-fill / compaction loops contains the lock page and that decode restores every other page, for every small (size, size, WAL page set); the binding needs real files because the lock page number is fixed by the page size: real databases are driven across the 1 GiB boundary and the TLA+ judge requires every operation to succeed, no file to contain the lock page, full files to be complete, and the restore to equal the source on every other page with the lock page empty."),
     "C19": dict(technique="TLA+ spec RestoreV3.tla/RestoreV3Plan.tla (transcription of the 0.3.x restore planning + declarative statement): TLC enumerates all small layouts; same layouts materialised as real lz4 snapshot/WAL-segment files from real SQLite histories and restored by the real code; TLC judge RestoreV3Obs.tla",
         design="7/C19", note="Layouts <= 2 generations, <= 2 snapshots, <= 3 indices, <= 3 segments per index, one segment removed, all timestamps; file replica client. " + TB,
         text="The transcription of findBestSnapshotV3 / filterWALSegmentsV3 / the contiguity walk / format arbitration is checked against the declarative statement on every small layout; each layout is built physically from a real history and restored with the real Replica.Restore; the TLA+ judge requires the real outcome to satisfy the declarative statement (verdict) and to equal the transcription (binding)."),
